@@ -24,9 +24,9 @@ def subK (e : Bool) : SCtx := { e := e, top := false }
 
 theorem subCtx_eq (K : SCtx) : subCtx K = subK K.e := rfl
 
-/-- Every defined function has a `{ }` body that is supported as a function body. -/
+/-- Every defined function has a body that is supported as a function body. -/
 def FuncsOk (e : Bool) (fs : List (Str × Stmt)) : Prop :=
-  ∀ f b, lookupFn fs f = some b → ∃ p, b = .mk false (.block p) ∧ supProg (fnK e) true p = true
+  ∀ f b, lookupFn fs f = some b → supStmt (fnK e) b = true
 
 /-- Facts relating the static context of a position and the dynamic context of `BashSem`. -/
 structure Stat (K : SCtx) (k : Ctx) (sub : Bool) : Prop where
